@@ -10,8 +10,10 @@ use std::sync::atomic::{AtomicUsize, Ordering};
 use std::sync::Mutex;
 use vh::*;
 
-const APIDS: [&str; 3] = ["APP1", "APP2", "AP3"];
-const CTIDS: [&str; 2] = ["CTX1", "CTX2"];
+const APIDS: [&str; 4] = ["APP1", "AP2", "A3", "B"];
+const CTIDS: [&str; 4] = ["CTX1", "CT2", "C3", "T"];
+// pairs named by the filters of the option space: make sure they occur in every input set
+const HOT: [(&str, &str); 6] = [("APP1", "C3"), ("AP2", "T"), ("B", "CTX1"), ("A3", "CT2"), ("APP1", "CTX1"), ("B", "T")];
 const MAX_IDX: u64 = 2147483647;
 
 struct GenMsg {
@@ -35,6 +37,7 @@ fn gen_set(dir: &str, shape: &Value, rng: &mut Rng) -> (Vec<String>, Vec<GenMsg>
     let boots = shape["boots"].as_u64().unwrap() as usize;
     let garbage = shape["garbage"].as_bool().unwrap();
     let noext = shape["noext"].as_bool().unwrap();
+    let jitter = shape["jitter"].as_bool().unwrap_or(false);
     let nf = pats.len();
     loop {
         let n = 24 + rng.below(16) as usize;
@@ -78,7 +81,12 @@ fn gen_set(dir: &str, shape: &Value, rng: &mut Rng) -> (Vec<String>, Vec<GenMsg>
             let ecu = format!("ECU{}", e as char);
             let boot_slot = *cuts[ei].iter().filter(|s| **s <= t).last().unwrap();
             let boot_start = rx(boot_slot) - 1_000_000;
-            let ts = (((rx(t) - boot_start) / 100_000) * 1000) as u32 + t as u32 + 1000;
+            let mut x = (rx(t) - boot_start) / 100_000; // timestamp in 0.1 s
+            if jitter && rng.chance(1, 3) {
+                let d = rng.range(5, 25).min(x - 1); // a buffered message: its timestamp is up to 2.5 s older
+                x -= d;
+            }
+            let ts = (x * 1000) as u32 + t as u32 + 1000;
             let with_ext = !(noext && rng.chance(1, 5));
             let text = format!("msg {} of {}", t, ecu);
             let m = if with_ext {
@@ -88,8 +96,7 @@ fn gen_set(dir: &str, shape: &Value, rng: &mut Rng) -> (Vec<String>, Vec<GenMsg>
                 pl.extend_from_slice(text.as_bytes());
                 pl.push(0);
                 let mut m = mk_msg(0, &ecu, rx(t), ts, pl);
-                let apid = *rng.pick(&APIDS);
-                let ctid = *rng.pick(&CTIDS);
+                let (apid, ctid) = if rng.chance(1, 2) { *rng.pick(&HOT) } else { (*rng.pick(&APIDS), *rng.pick(&CTIDS)) };
                 m.extended_header = Some(DltExtendedHeader {
                     verb_mstp_mtin: ((rng.range(1, 6) as u8) << 4) | 0x01,
                     noar: 1,
@@ -457,7 +464,13 @@ fn main() {
             let idx: Vec<u64> = ml.iter().map(|l| l["index"].as_u64().unwrap()).collect();
             ref_evs.push(json!({"ev":"member","id":id,"idx":idx}));
         }
-        ref_evs.push(json!({"ev":"end"}));
+        // the order `--sort` gives without any selection (coverage accounting only: does sorting permute, also across -e?)
+        let mut s_args = vec!["-s".to_string(), "--sort".to_string()];
+        s_args.extend(files.iter().cloned());
+        let r4 = run_adlt(&adlt, &dir, "ref-s", &s_args);
+        total_runs += 1;
+        let sorted_order: Vec<u64> = parse_lines(&r4.stdout).0.iter().map(|l| l["index"].as_u64().unwrap()).collect();
+        ref_evs.push(json!({"ev":"end","sorted_order":sorted_order}));
         // ---------------- selection runs
         let n = ref_lines.len() as u64;
         let perms = permutations(files.len());
